@@ -247,7 +247,14 @@ bool IncSolver::solve() {
 #endif
     satisfy();
     double lastcost = DBL_MAX, cost = bs->cost();
-    while(fabs(lastcost-cost)>0.0001) {
+    // A pass can leave the cost unchanged and still change the active set
+    // (a block is split and then re-merged across another tight constraint),
+    // and the following pass may then improve the solution.  So also keep
+    // going while the last pass split a block.  The number of such
+    // cost-neutral passes is bounded so that termination is guaranteed.
+    unsigned stalledPasses = 0;
+    while(fabs(lastcost-cost)>0.0001 ||
+            (splitCnt>0 && ++stalledPasses<=n)) {
         satisfy();
         lastcost=cost;
         cost = bs->cost();
